@@ -172,6 +172,13 @@ impl TlsPeer {
         Ok(TlsPeer { srv, pipe: Rc::new(RefCell::new(PipeBuf::default())), tls: Tls::Plain, acceptor: acc, handshake_done: false, handshake_failed: false, raw_before_tls: vec![], raw_after_cc: vec![], cc_sent: false, plaintext_in: vec![], client_closed_tls: false })
     }
 
+    /// the first client bytes are a TLS ClientHello (no X.224 negotiation in front)
+    pub fn expect_tls_immediately(&mut self) {
+        self.srv.skip_negotiation();
+        self.tls = Tls::Handshaking(None);
+        self.cc_sent = true;
+    }
+
     fn flush(&mut self, sh: &mut Shared) {
         let out: Vec<u8> = std::mem::take(&mut self.pipe.borrow_mut().outgoing);
         if !out.is_empty() {
